@@ -194,6 +194,9 @@ func (c *Cluster) execOp(op string) {
 			out := n.propose([]byte(tok))
 			d := n.rn.VerifState()
 			c.mon.onPropose(tok, out, d.State == raft.StateLeader)
+			if strings.Contains(out, "res=ok") {
+				c.mon.onAccepted(n, 1)
+			}
 			c.mon.afterOp(n, "propose")
 		}
 	case "proposebatch":
@@ -230,6 +233,9 @@ func (c *Cluster) execOp(op string) {
 				c.mon.onPropose(tok, out, d.State == raft.StateLeader)
 			}
 			c.mon.onBatch(n, ents, out)
+			if strings.Contains(out, "res=ok") {
+				c.mon.onAccepted(n, len(ents))
+			}
 			c.mon.afterOp(n, "step")
 		}
 	case "proposecc":
